@@ -445,6 +445,51 @@ Section ScorerProofs.
   Qed.
 End ScorerProofs.
 
+(* the write pattern of the assembly loops of LexStat.get_scorer and Partial.get_partial_scorer
+   (the same iteration space: language pairs x (sounds + gap) x (sounds + gap)) *)
+Section ScorerPattern.
+  Context {V : Type}.
+  Variable d : V.
+
+  Lemma assemble_square : forall n writes (start : list (list V)),
+    square n start -> square n (assemble n start writes).
+  Proof.
+    intros n writes. unfold assemble. induction writes as [|w t IH]; intros start Sq; cbn [fold_left]; [exact Sq|].
+    apply IH. apply sym_write_square. exact Sq.
+  Qed.
+
+  (* whatever values the scores take (val), whatever sounds the languages have (fkeys) and whatever the
+     alphabet order (chars): a symmetric basic scorer gives a symmetric language-specific scorer *)
+  Theorem cscorer_pattern_symmetric :
+    forall (chars : list str) (fkeys : list (list str)) (b : list (list V)) (val : nat -> nat -> V),
+      square (length chars) b -> symmetric d b ->
+      symmetric d (assemble (length chars) b (with_values val (scorer_write_indices chars fkeys))).
+  Proof.
+    intros chars fkeys b val Sq Sy. apply (scorer_symmetric d); assumption.
+  Qed.
+
+  (* the last write to a cell decides both mirrored cells: within one language the loop visits (a, b) and
+     (b, a) with possibly different scores - the later one wins in BOTH cells *)
+  Theorem assemble_last_write :
+    forall n (start : list (list V)) ws i j v, square n start -> i < n -> j < n ->
+      mget d (assemble n start (ws ++ [(i, j, v)])) i j = v /\
+      mget d (assemble n start (ws ++ [(i, j, v)])) j i = v.
+  Proof.
+    intros n start ws i j v Sq Hi Hj. unfold assemble. rewrite fold_left_app. cbn [fold_left].
+    assert (Sq' : square n (fold_left (sym_write n) ws start)) by (apply (assemble_square n ws start Sq)).
+    set (m := fold_left (sym_write n) ws start) in *.
+    unfold sym_write.
+    assert (R : (i <? n) && (j <? n) = true)
+      by (apply andb_true_iff; split; apply Nat.ltb_lt; assumption).
+    rewrite R. split.
+    - rewrite (mget_mset d n) by (try apply mset_square; assumption).
+      rewrite (mget_mset d n) by assumption.
+      rewrite !Nat.eqb_refl. cbn [andb]. destruct ((i =? j) && (j =? i)); reflexivity.
+    - rewrite (mget_mset d n) by (try apply mset_square; assumption).
+      rewrite !Nat.eqb_refl. reflexivity.
+  Qed.
+End ScorerPattern.
+
 (* ------------------------------------------------------------------ *)
 (* K8 repeated analyses *)
 
